@@ -735,12 +735,13 @@ class Engine:
                 for x in t.elts:
                     tgt(x)
             elif isinstance(t, ast.Subscript):
-                root = t.value
+                root, via_attr = t.value, False
                 while isinstance(root, (ast.Subscript, ast.Attribute)):
                     if isinstance(root, ast.Attribute) and isinstance(root.value, ast.Name):
                         attrs.add((root.value.id, root.attr))
+                        via_attr = True
                     root = root.value
-                if isinstance(root, ast.Name):
+                if isinstance(root, ast.Name) and not via_attr:
                     names.add(root.id)
             elif isinstance(t, ast.Attribute) and isinstance(t.value, ast.Name):
                 attrs.add((t.value.id, t.attr))
@@ -1089,6 +1090,8 @@ class Engine:
         return Abstract("method", recv=base, name=e.attr)
 
     def ev_index(self, sl, st):
+        if isinstance(sl, ast.Tuple):
+            return tuple(self.ev_index(x, st) for x in sl.elts)
         if isinstance(sl, ast.Slice):
             return Abstract("slice", lo=self.ev(sl.lower, st) if sl.lower else None, hi=self.ev(sl.upper, st) if sl.upper else None,
                             step=self.ev(sl.step, st) if sl.step else None)
